@@ -31,9 +31,12 @@ import (
 	rcmgr "github.com/libp2p/go-libp2p/p2p/host/resource-manager"
 	"github.com/libp2p/go-libp2p/p2p/muxer/yamux"
 	mocknet "github.com/libp2p/go-libp2p/p2p/net/mock"
+	"github.com/libp2p/go-libp2p/p2p/protocol/circuitv2/client"
+	relayv2 "github.com/libp2p/go-libp2p/p2p/protocol/circuitv2/relay"
 	"github.com/libp2p/go-libp2p/p2p/protocol/identify"
 	"github.com/libp2p/go-libp2p/p2p/security/noise"
 	"github.com/libp2p/go-libp2p/p2p/transport/tcp"
+	ma "github.com/multiformats/go-multiaddr"
 	msmux "github.com/multiformats/go-multistream"
 )
 
@@ -59,8 +62,9 @@ type c07Inv struct {
 }
 
 type c07World struct {
-	kind     int64 // 0 mocknet, 1 tcp+noise+yamux
+	kind     int64 // 0 mocknet, 1 tcp+noise+yamux, 2 the same through a circuit-v2 relay (limited connection)
 	hasScope bool
+	limited  bool
 	d, l     host.Host
 	rmD, rmL network.ResourceManager
 	limD     []int64
@@ -144,28 +148,70 @@ func c07NewWorld(t *testing.T, kind int64, limD, limL []int64) *c07World {
 		if err != nil {
 			t.Fatal(err)
 		}
-		mk := func(rm network.ResourceManager) host.Host {
-			h, err := libp2p.New(
-				libp2p.ListenAddrStrings("/ip4/127.0.0.1/tcp/0"),
+		mk := func(rm network.ResourceManager, listen bool) host.Host {
+			opts := []libp2p.Option{
 				libp2p.Transport(tcp.NewTCPTransport),
 				libp2p.Security(noise.ID, noise.New),
 				libp2p.Muxer(yamux.ID, yamux.DefaultTransport),
-				libp2p.ResourceManager(rm),
-				libp2p.DisableRelay(),
 				libp2p.DisableMetrics(),
-			)
+			}
+			if rm != nil {
+				opts = append(opts, libp2p.ResourceManager(rm))
+			}
+			if listen {
+				opts = append(opts, libp2p.ListenAddrStrings("/ip4/127.0.0.1/tcp/0"))
+			} else {
+				opts = append(opts, libp2p.NoListenAddrs, libp2p.EnableRelay())
+			}
+			if kind == 1 {
+				opts = append(opts, libp2p.DisableRelay())
+			}
+			h, err := libp2p.New(opts...)
 			if err != nil {
 				t.Fatal(err)
 			}
 			return h
 		}
-		w.d, w.l = mk(w.rmD), mk(w.rmL)
-		w.closers = append(w.closers, func() { w.d.Close(); w.l.Close() })
+		if kind == 1 {
+			w.d, w.l = mk(w.rmD, true), mk(w.rmL, true)
+			w.closers = append(w.closers, func() { w.d.Close(); w.l.Close() })
+		} else {
+			// the listener is reachable only through a circuit-v2 relay: the
+			// dialer's connection to it is a limited one
+			w.limited = true
+			rh := mk(nil, true)
+			if _, err := relayv2.New(rh, relayv2.WithLimit(&relayv2.RelayLimit{Duration: time.Hour, Data: 1 << 32})); err != nil {
+				t.Fatal(err)
+			}
+			w.d, w.l = mk(w.rmD, false), mk(w.rmL, false)
+			w.closers = append(w.closers, func() { w.d.Close(); w.l.Close(); rh.Close() })
+			ri := peer.AddrInfo{ID: rh.ID(), Addrs: rh.Addrs()}
+			if err := w.l.Connect(ctx, ri); err != nil {
+				t.Fatal(err)
+			}
+			if _, err := client.Reserve(ctx, w.l, ri); err != nil {
+				t.Fatal(err)
+			}
+		}
 	}
 	w.d.RemoveStreamHandler(identify.IDPush)
 	w.l.RemoveStreamHandler(identify.IDPush)
-	if err := w.d.Connect(ctx, peer.AddrInfo{ID: w.l.ID(), Addrs: w.l.Addrs()}); err != nil {
+	laddrs := w.l.Addrs()
+	if w.limited {
+		laddrs = nil
+		for _, c := range w.l.Network().Conns() {
+			a, err := ma.NewMultiaddr(c.RemoteMultiaddr().String() + "/p2p/" + c.RemotePeer().String() + "/p2p-circuit")
+			if err != nil {
+				t.Fatal(err)
+			}
+			laddrs = append(laddrs, a)
+		}
+	}
+	if err := w.d.Connect(network.WithAllowLimitedConn(ctx, "c07"), peer.AddrInfo{ID: w.l.ID(), Addrs: laddrs}); err != nil {
 		t.Fatal(err)
+	}
+	if cs := w.d.Network().ConnsToPeer(w.l.ID()); len(cs) != 1 || cs[0].Stat().Limited != w.limited {
+		t.Fatalf("connection to the listener: %d conns, limited flag wrong", len(cs))
 	}
 	type idw interface {
 		IDService() identify.IDService
